@@ -14,7 +14,7 @@ import QEProofs.Lemmas.C13Grid
 import QEProofs.Lemmas.C13Tauchen
 import QEProofs.Lemmas.C13Est
 import QEProofs.Lemmas.C13Poly
-import QEProofs.Lemmas.C13Fit
+import QEProofs.Properties.C16
 namespace QE.C13
 open QE Finset
 
@@ -349,6 +349,21 @@ theorem tauchen_row_sums (sqrt erfc : K → K) (n : ℕ) (hn : 2 ≤ n) (rho sig
   rw [sum_congr rfl (fun j hj => M.get_tab _ _ _ _ _ hi (mem_range.mp hj))]
   exact tauchen_row_sum _ _ n hn rho sigma _ i (fun j hj => tauchenX_spacing sqrt n hn rho sigma nstd j hj)
 
+/-- **Cumulative row sums are the Gaussian cdf at the cell boundaries**: for `k < n-1`,
+    `Σ_{j ≤ k} P[i,j] = Φ((x_k + h - ρ x_i)/σ)` exactly (any `Φ`), so each entry is the mass the
+    conditional law `N(ρ x_i, σ²)` puts on its cell and the last cell takes the remaining mass. -/
+theorem tauchen_cdf (sqrt erfc : K → K) (n : ℕ) (hn : 2 ≤ n) (rho sigma mu : K) (nstd : ℕ)
+    (i : ℕ) (hi : i < n) (k : ℕ) (hk : k + 1 < n) :
+    ∑ j ∈ range (k + 1), (tauchen sqrt erfc n rho sigma mu nstd).1.get i j
+      = stdNormCdf erfc (sqrt (1 + 1))
+          (((tauchenX sqrt n rho sigma nstd).1.getD k 0 - rho * (tauchenX sqrt n rho sigma nstd).1.getD i 0
+            + (tauchenX sqrt n rho sigma nstd).2) / sigma) := by
+  rw [tauchen_fst]
+  unfold fillTauchen
+  rw [sum_congr rfl (fun j hj => M.get_tab _ _ _ _ _ hi (by have := mem_range.mp hj; omega))]
+  exact tauchen_partial_sum _ _ n rho sigma _ i
+    (fun j hj => tauchenX_spacing sqrt n hn rho sigma nstd j hj) k hk
+
 /-- **Entries are non-negative** when `erfc` is non-increasing with values in `[0,2]`,
     the two square roots are non-negative resp. positive and `σ > 0`. -/
 theorem tauchen_nonneg (sqrt erfc : K → K) (n : ℕ) (hn : 2 ≤ n) (rho sigma mu : K) (nstd : ℕ)
@@ -536,17 +551,114 @@ theorem fit_is_estimate_of_nearest {K : Type} [NatCast K] [Div K] (X grids : Lis
   cases estimateMc (α := K) (X.map fun x => QE.C16.nearestIndex grids x orderF) <;> rfl
 
 
-/-- **What "nearest grid point" means, per dimension.** `fit_discrete_mc` discretises each
-    coordinate with `nearest1` (the model of `_cartesian_nearest_indices`) and encodes the
-    per-dimension indices in mixed radix (`cartesianIndex`, by definition of `nearestIndex`).
-    On a strictly increasing non-empty grid the per-dimension index is in range and designates
-    a grid point at minimal distance from the observation. (The decoding of the mixed-radix index
-    by `cartesian` is not proved here; it is compared exhaustively by the C16 correspondence.) -/
-theorem fit_nearest_per_dimension {K : Type} [Field K] [LinearOrder K] [IsStrictOrderedRing K]
-    (g : List K) (hg : g.Pairwise (· < ·)) (hne : 0 < g.length) (x : K) :
-    QE.C16.nearest1 g x < g.length ∧
-      ∀ j, j < g.length → |g.getD (QE.C16.nearest1 g x) 0 - x| ≤ |g.getD j 0 - x| :=
-  nearest1_spec g hg hne x
+/-! ### the state values are the nearest grid points (uses the C16 theorems `nearest1_is_argmin`,
+    `nearestIndex_is_argmin`, which rest on `cartesian_spec` / `cartesianIndex_digits`) -/
+
+/-- the grid point to which `fit_discrete_mc` maps the observation `x`: the row of
+    `cartesian(grids, order)` numbered `cartesian_nearest_index(x, grids, order)` -/
+def nearestPoint (grids : List (List Rat)) (orderF : Bool) (x : List Rat) : List Rat :=
+  (QE.C16.cartesian grids orderF).getD (QE.C16.nearestIndex grids x orderF) []
+
+/-- **The discretisation is nearest-grid-point, in both orders.** For non-empty sorted grids and
+    every observation `x`: the point assigned to `x` is a row of the product grid; its `d`-th
+    coordinate is `grids[d][nearest1 grids[d] x[d]]`, where that per-dimension index is valid,
+    minimises `|x[d] - grids[d][i]|` and — on a strictly increasing grid — is the *lowest* such
+    index (ties, e.g. exact mid-points, go down); and no point of the product grid is closer to
+    `x` in Euclidean distance. -/
+theorem fit_point_is_nearest (grids : List (List Rat)) (o : Bool)
+    (hn : ∀ g ∈ grids, g ≠ [] ∧ g.Pairwise (· ≤ ·)) (x : List Rat) :
+    QE.C16.nearestIndex grids x o < (QE.C16.cartesian grids o).length ∧
+    (∀ d, d < grids.length →
+      (nearestPoint grids o x).getD d 0
+          = (grids.getD d []).getD (QE.C16.nearest1 (grids.getD d []) (x.getD d 0)) 0 ∧
+      QE.C16.nearest1 (grids.getD d []) (x.getD d 0) < (grids.getD d []).length ∧
+      (∀ i, i < (grids.getD d []).length →
+        |x.getD d 0 - (nearestPoint grids o x).getD d 0| ≤ |x.getD d 0 - (grids.getD d []).getD i 0|) ∧
+      ((grids.getD d []).Pairwise (· < ·) →
+        ∀ i, i < QE.C16.nearest1 (grids.getD d []) (x.getD d 0) →
+          |x.getD d 0 - (nearestPoint grids o x).getD d 0| < |x.getD d 0 - (grids.getD d []).getD i 0|)) ∧
+    ∀ r, r < (QE.C16.cartesian grids o).length →
+      QE.C16.sqDist grids.length x (nearestPoint grids o x)
+        ≤ QE.C16.sqDist grids.length x ((QE.C16.cartesian grids o).getD r []) := by
+  obtain ⟨h1, h2, h3⟩ := QE.C16.nearestIndex_is_argmin grids x o hn
+  refine ⟨h1, fun d hd => ?_, h3⟩
+  have hmem : grids.getD d [] ∈ grids := by
+    rw [List.getD_eq_getElem?_getD, List.getElem?_eq_getElem hd]; exact List.getElem_mem hd
+  obtain ⟨hne, hs⟩ := hn _ hmem
+  obtain ⟨a1, a2, a3⟩ := QE.C16.nearest1_is_argmin (grids.getD d []) (x.getD d 0) hne hs
+  have hc := h2 d hd
+  unfold nearestPoint
+  rw [hc]
+  exact ⟨rfl, a1, a2, a3⟩
+
+/-- **fit_discrete_mc: state values, both orders.** If `fit_discrete_mc(X, grids, order)`
+    returns `(V, P)` then, with `idx` the sequence of nearest product indices:
+    `estimate_mc(idx)` returned `(S, P)` (so `estimate_mc_counts` describes `P`), `S` is the
+    strictly increasing list of the visited indices, `V[i]` is the grid point numbered `S[i]`,
+    and the state values are **exactly** the nearest grid points of the observations:
+    `v ∈ V ↔ ∃ x ∈ X, v = nearestPoint x` (each characterised by `fit_point_is_nearest`). -/
+theorem fit_state_values {K : Type} [NatCast K] [Div K] (X grids : List (List Rat)) (o : Bool)
+    (V : List (List Rat)) (P : List (List K)) (h : fitDiscreteMc (α := K) X grids o = some (V, P)) :
+    let idx := X.map fun x => QE.C16.nearestIndex grids x o
+    estimateMc (α := K) idx = some (uniqueSorted idx, P) ∧
+    (uniqueSorted idx).Pairwise (· < ·) ∧
+    V = (uniqueSorted idx).map (fun k => (QE.C16.cartesian grids o).getD k []) ∧
+    (∀ v, v ∈ V ↔ ∃ x ∈ X, v = nearestPoint grids o x) ∧
+    ∀ t (ht : t < X.length), ∃ i : ℕ, (uniqueSorted idx)[i]? = some (QE.C16.nearestIndex grids X[t] o) ∧
+      V[i]? = some (nearestPoint grids o X[t]) := by
+  intro idx
+  rw [fit_is_estimate_of_nearest] at h
+  cases hm : estimateMc (α := K) (X.map fun x => QE.C16.nearestIndex grids x o) with
+  | none => rw [hm] at h; simp at h
+  | some r =>
+    rw [hm] at h
+    simp only [Option.map_some, Option.some.injEq, Prod.mk.injEq] at h
+    obtain ⟨hV, hP⟩ := h
+    have hS : r.1 = uniqueSorted idx := by
+      unfold estimateMc at hm
+      simp only [] at hm
+      split at hm
+      · simp at hm
+      · simp only [Option.some.injEq] at hm
+        rw [← hm]; rfl
+    have hr : r = (uniqueSorted idx, P) := by
+      rw [← hS, ← hP]
+    refine ⟨by rw [hr], uniqueSorted_pairwise idx, by rw [← hV, hS], ?_, ?_⟩
+    · intro v
+      rw [← hV, hS, List.mem_map]
+      constructor
+      · rintro ⟨k, hk, rfl⟩
+        obtain ⟨x, hx, rfl⟩ := List.mem_map.mp ((mem_uniqueSorted idx k).mp hk)
+        exact ⟨x, hx, rfl⟩
+      · rintro ⟨x, hx, rfl⟩
+        exact ⟨_, (mem_uniqueSorted idx _).mpr (List.mem_map.mpr ⟨x, hx, rfl⟩), rfl⟩
+    · intro t ht
+      have hmem : QE.C16.nearestIndex grids X[t] o ∈ uniqueSorted idx :=
+        (mem_uniqueSorted idx _).mpr (List.mem_map.mpr ⟨X[t], List.getElem_mem ht, rfl⟩)
+      obtain ⟨i, hi, hget⟩ := List.getElem_of_mem hmem
+      refine ⟨i, by rw [List.getElem?_eq_getElem hi, hget], ?_⟩
+      rw [← hV, hS, List.getElem?_map, List.getElem?_eq_getElem hi, hget]
+      rfl
+
+/-- **fit_discrete_mc: transition probabilities.** With `S` the visited product indices (state `i`
+    is labelled by the grid point `V[i]` numbered `S[i]`), `N a b` the number of transitions
+    `a → b` in the index sequence: `P[i][j] · N_i = N S[i] S[j]`, `N_i ≠ 0`, rows sum to one. -/
+theorem fit_counts {K : Type} [Field K] [CharZero K] (X grids : List (List Rat)) (o : Bool)
+    (V : List (List Rat)) (P : List (List K)) (h : fitDiscreteMc (α := K) X grids o = some (V, P)) :
+    let idx := X.map fun x => QE.C16.nearestIndex grids x o
+    let S := uniqueSorted idx
+    V.length = S.length ∧ P.length = S.length ∧
+    ∀ i (hi : i < S.length),
+      (S.map (transCount idx S[i])).sum ≠ 0 ∧ (P.getD i []).sum = 1 ∧
+      ∀ j (hj : j < S.length),
+        (P.getD i []).getD j 0 * (((S.map (transCount idx S[i])).sum : ℕ) : K)
+          = (transCount idx S[i] S[j] : K) := by
+  intro idx S
+  obtain ⟨he, _, hV, _, _⟩ := fit_state_values X grids o V P h
+  obtain ⟨_, _, _, hlen, hrows⟩ := estimate_mc_counts idx S P he
+  refine ⟨by rw [hV]; simp [S, idx], hlen, fun i hi => ?_⟩
+  obtain ⟨a, _, b, c⟩ := hrows i hi
+  exact ⟨a, b, c⟩
 
 /-- the product index is the mixed-radix code of the per-dimension nearest indices -/
 theorem fit_index_is_code (grids : List (List Rat)) (x : List Rat) :
@@ -559,8 +671,14 @@ theorem fit_index_is_code (grids : List (List Rat)) (x : List Rat) :
         ((List.range grids.length).map fun i => QE.C16.nearest1 (grids.getD i []) (x.getD i 0)).reverse
         (grids.map List.length).reverse := ⟨rfl, rfl⟩
 
-/-- non-vacuity: grid `0, 1/2, 2`, observation `1` (nearer to `1/2`), midpoint tie `5/4 → 1/2` -/
-example : QE.C16.nearest1 ([0, 1/2, 2] : List ℚ) 1 = 1 ∧ QE.C16.nearest1 ([0, 1/2, 2] : List ℚ) (5/4) = 1
-    ∧ QE.C16.nearest1 ([0, 1/2, 2] : List ℚ) (3/2) = 2 := by decide +kernel
+/-- non-vacuity (the docstring example of `fit_discrete_mc`, both orders): sorted non-empty grids,
+    a mid-point tie (`1/2` between `0` and `1` goes to `0`), the visited points in product order -/
+example : (fitDiscreteMc (α := ℚ) [[-1/10, 6/5], [2, 0], [1/2, 2/5], [1, 1/10], [2, 0]] [[0, 1, 2], [0, 1]] false).map Prod.fst
+    = some [[0, 0], [0, 1], [1, 0], [2, 0]] := by
+  decide +kernel
+example : (fitDiscreteMc (α := ℚ) [[-1/10, 6/5], [2, 0], [1/2, 2/5], [1, 1/10], [2, 0]] [[0, 1, 2], [0, 1]] true).map Prod.fst
+    = some [[0, 0], [1, 0], [2, 0], [0, 1]] := by
+  decide +kernel
+example : ∀ g ∈ ([[0, 1, 2], [0, 1]] : List (List Rat)), g ≠ [] ∧ g.Pairwise (· ≤ ·) := by decide +kernel
 
 end QE.C13
